@@ -50,7 +50,7 @@ func c05Scenarios() []scenario {
 		add(c05p{kind: "free", k: k, posters: 1, posts: 2, resize: true})
 	}
 	add(c05p{kind: "free", k: 2, perRead: 2, posters: 2, posts: 1, resize: true})
-	add(c05p{kind: "pending", k: 2, posters: 1, posts: 1})
+	add(c05p{kind: "pending", k: 2, posters: 1, posts: 2})
 	add(c05p{kind: "pending", k: 3})
 	for _, k := range []int{0, 2, 3} {
 		add(c05p{kind: "chanev", k: k, posters: 1, posts: 2})
@@ -261,6 +261,13 @@ func c05prog(ps string, res *result) func() {
 				res.events = append(res.events, fmt.Sprintf("k%c", kr))
 				verifrt.Note(uint64(kr))
 			case *tcell.EventResize:
+				if rw, rh := e.Size(); rh == 7 && rw >= 1000 {
+					id := rw - 1000
+					o.got = append(o.got, delivered{what: "post", id: id, when: e.When(), got: now})
+					res.events = append(res.events, fmt.Sprintf("p%d", id))
+					verifrt.Note(uint64(1000 + id))
+					break
+				}
 				res.events = append(res.events, "resize")
 			case *tcell.EventError:
 				if !p.errLast {
@@ -301,7 +308,14 @@ func c05prog(ps string, res *result) func() {
 					for n := 0; n < p.posts; n++ {
 						id := pi*100 + n
 						at := verifrt.Now()
-						err := s.PostEvent(tcell.NewEventInterrupt(id))
+						// every second post is an event of a kind the screen also produces itself (a
+						// resize event whose size is not the screen's): a posted event is delivered as
+						// posted, whatever it says
+						var pev tcell.Event = tcell.NewEventInterrupt(id)
+						if n%2 == 1 {
+							pev = tcell.NewEventResize(1000+id, 7)
+						}
+						err := s.PostEvent(pev)
 						o.posts[pi] = append(o.posts[pi], postRec{id, err, at})
 						if err != nil {
 							verifrt.Note(uint64(7000 + id))
